@@ -143,7 +143,8 @@ def D2_type_counts(repo, clause, kinds=("atom",) + KINDS, pair=True):
         tables[k] = "%s_type_coeffs" % k
     for k in kinds:
         fn = repo.fn("Atoms.num_%s_types" % k)
-        dl = decision_list(fn.node, {"self": P("self")}, nz)
+        from verif_sa.pe import decision_list_inlined
+        dl = decision_list_inlined(repo, fn, {"self": P("self")}, nz)
         table_len = ("call", "len", ("args", ("attr", P("self"), tables[k])), ("kws",))
         for i, (conds, res) in enumerate(dl):
             if res[0] != "ret":
@@ -163,6 +164,8 @@ def D2_type_counts(repo, clause, kinds=("atom",) + KINDS, pair=True):
             else:
                 empty = any(_implies_empty(c, table_len) for c in conds)
                 ok = empty
+                if not empty and not _recognisable_count(val):
+                    raise AnalysisError("D2: leaf #%d of num_%s_types returns %s, which is neither the table length nor a recognisable count; cannot decide" % (i, k, _short(val, 80)))
                 if empty and val != ("const", 0) and k != "atom":
                     # fallback when no coefficient table exists: every id in use must be below the count
                     types_attr = ("attr", P("self"), "%s_types" % k)
@@ -213,6 +216,19 @@ def D2_type_counts(repo, clause, kinds=("atom",) + KINDS, pair=True):
                       "coefficients land on type ids 0.. instead of offset.." % ("with padding/guard" if guarded else "WITHOUT padding to the atom-type offset"),
                       slot="pair_coeffs-lockstep"))
     return obs
+
+
+def _recognisable_count(val):
+    """Terms we can positively classify as 'not the table length': constants, max(..)+1, len(<other thing>)."""
+    if val[0] == "const":
+        return True
+    if val[0] == "add" and any(isinstance(x, tuple) and x and x[0] in ("call", "mcall") and "max" in repr(x[:3]) for x in val[1:]):
+        return True
+    if val[0] == "call" and val[1] == "len":
+        return True
+    if val[0] == "or":
+        return all(_recognisable_count(x) for x in val[1:])
+    return False
 
 
 def _implies_empty(cond, table_len):
@@ -561,7 +577,13 @@ def D4_windows(repo, clause):
         tests = [s for s in lp.body if isinstance(s, ast.If)]
         if len(tests) != 1:
             raise AnalysisError("D4: window loop without a single filter test")
-        pairs = _cmp_pairs(tests[0].test)
+        from .common import strip_not
+        wtest, wpol = strip_not(tests[0].test, True)
+        skip_form = len(tests[0].body) == 1 and isinstance(tests[0].body[0], ast.Continue) and not tests[0].orelse
+        if wpol == skip_form:
+            # `if not inside: <keep>` or `if inside: continue` would invert the window
+            obs.append(Ob("D4", clause, win, tests[0], False, "window test has inverted polarity: atoms INSIDE the window are skipped", slot="polarity"))
+        pairs = _cmp_pairs(wtest)
         gs = norm_guards(win, lp)
         is_tri = any("cell_is_orthorhombic" in ast.unparse(t) and not pol for t, pol, k in gs)
         which = "triclinic" if is_tri else "orthorhombic"
